@@ -74,9 +74,8 @@ def expected_outcome(contract, args, reads=None):
 
 
 def make_job(contract, args, reads=None, **extra):
-    fn = contract.fn()
-    from .interp import function_ast
-    names = [a.arg for a in function_ast(fn).args.args]
+    import inspect
+    names = list(inspect.signature(contract.fn()).parameters)
     job = {'target': contract.target, 'args': [values.encode(args[n]) for n in names if n in args]}
     if reads:
         job['globals'] = {}
